@@ -261,6 +261,11 @@ func (st *state) handle(ctx *app.RequestContext) {
 			ctx.Response.Header.Trailer().Set("X-Tr", "tv")
 		}
 		ctx.SetBodyStream(&shortReader{b, r}, -1)
+	case "stream-unknown-strip":
+		// ... and a later part of the chain strips the hop-by-hop field (a gateway middleware
+		// after Next): the framing header is derived from the body when the response is written
+		ctx.SetBodyStream(&shortReader{b, r}, -1)
+		ctx.Response.Header.Del("Transfer-Encoding")
 	case "stream-limited":
 		ctx.SetBodyStream(io.LimitReader(&shortReader{append(b, "0123456789"...), r}, int64(p.Size)), -1)
 	case "chunkw":
@@ -310,7 +315,7 @@ func (st *state) handle(ctx *app.RequestContext) {
 	}
 }
 
-var modes = []string{"none", "setbody", "string", "data", "append", "stream-known", "stream-unknown", "stream-limited", "chunkw", "chunkw", "json", "redirect", "file", "abortmsg", "setbodyraw", "raw-append", "chunkw-string", "chunkw-stream", "chunkw-raw", "chunkw-file", "chunkw-abort", "chunkw-abort0", "unknown-length"}
+var modes = []string{"none", "setbody", "string", "data", "append", "stream-known", "stream-unknown", "stream-limited", "chunkw", "chunkw", "json", "redirect", "file", "abortmsg", "setbodyraw", "raw-append", "chunkw-string", "chunkw-stream", "chunkw-raw", "chunkw-file", "chunkw-abort", "chunkw-abort0", "unknown-length", "stream-unknown-strip"}
 
 // files of the sizes the programs use, created once per worker process
 var fileDir string
